@@ -359,3 +359,71 @@ def default_corpus(ctx, big=False):
     corpus += inputs.inferred(ctx.seed, k=1 if q else 3)
     corpus += [inputs.renumbered(c, ctx.seed) for c in corpus[:1 if q else 3]]
     return corpus
+
+
+def loop_traces(ctx, pid, insts, consts, name="clt"):
+    """code -> spec at loop granularity for util._constrain_ages: the loop-head recorder (JIT off, separate
+    process, vt/looptrace_constrain.py) logs nodes_time / edges_cavity at every inner-loop head and TLC
+    (spec/ConstrainLoopTrace.tla) steps Constrain!Project / Force / EarlyExit alongside."""
+    import subprocess
+
+    from . import harness
+    insts = [i for i in insts if i["eps"] > 0]
+    if not insts:
+        return
+    ip = os.path.join(ctx.work, f"{name}-insts.json")
+    op = os.path.join(ctx.work, f"{name}.ndjson")
+    json.dump(insts, open(ip, "w"))
+    env = dict(os.environ, NUMBA_DISABLE_JIT="1", PYTHONPATH=harness.VERIF, VERIF_REPO=harness.REPO)
+    env.pop("NUMBA_CACHE_DIR", None)
+    r = subprocess.run(["/venv/bin/python", "-m", "vt.looptrace_constrain", ip, op], env=env, capture_output=True,
+                       text=True, cwd=harness.VERIF, timeout=1800)
+    if r.returncode != 0:
+        last = (r.stderr.strip().splitlines() or ["?"])[-1]
+        if "non-integer value" in last or "Error" in last or "Exception" in last:
+            ctx.violation(f"{pid}/looptrace/recorder-stopped", {"stderr": r.stderr[-600:]},
+                          "_constrain_ages under the loop-head recorder: " + last, subcheck="loop")
+            return
+        raise harness.MachineryError("loop-head recorder failed: " + r.stderr[-1500:])
+    cfg = ctx.write_cfg(f"{name}.cfg", spec="TraceSpec", constants=constants(**consts))
+
+    def validate(path):
+        res = ctx.tlc("ConstrainLoopTrace", cfg, workers=1, coverage=False, env={"TRACE_FILE": path}, must_hold=False)
+        acc = res.rec("accepted")
+        if not acc:
+            raise harness.MachineryError("ConstrainLoopTrace gave no verdict:\n" + res.stdout[-2000:])
+        return {v["tid"]: v["ok"] for v in res.rec("verdict")}, res.rec("reject")
+
+    verdicts, rej = validate(op)
+    if len(verdicts) != len(insts):
+        bad = [t for t in range(len(insts)) if t not in verdicts]
+        for t in bad[:3]:
+            ctx.violation(f"{pid}/looptrace/trace-not-consumed", insts[t],
+                          "the loop-head trace does not follow Constrain's machine (no enabled step)", subcheck="loop")
+    ctx.traces += len(insts)
+    ctx.count("loop_head_traces", len(insts))
+    clause = {}
+    for x in rej:
+        clause.setdefault(x["tid"], x["clause"])
+    for t, ok in verdicts.items():
+        if not ok:
+            ctx.violation(f"{pid}/looptrace/{clause.get(t, '?')}", insts[t],
+                          f"loop-head trace of _constrain_ages rejected by ConstrainLoopTrace: {clause.get(t)}",
+                          subcheck="loop")
+    # binding demonstration: corrupt one logged time, that trace (and only it) must be rejected
+    lines = open(op).read().splitlines()
+    for i, ln in enumerate(lines):
+        ev = json.loads(ln)
+        if ev["kind"] == "head" and not ev["exit"] and ev["loop"] == "force":
+            ev["time"][0] += 1
+            lines[i] = json.dumps(ev)
+            bad_tid = ev["tid"]
+            break
+    else:
+        return
+    cp = os.path.join(ctx.work, f"{name}-corrupt.ndjson")
+    open(cp, "w").write("\n".join(lines) + "\n")
+    v2, _ = validate(cp)
+    if v2.get(bad_tid, True) or any((not ok) for t, ok in v2.items() if t != bad_tid and verdicts.get(t, True)):
+        raise harness.MachineryError("ConstrainLoopTrace did not reject exactly the corrupted trace")
+    ctx.count("corrupted_traces_rejected", 1)
